@@ -1,10 +1,14 @@
 /-
 C10 — Syntax errors are reported at the right place and can always be displayed.
-Property theorems only (helper lemmas: KlogV/Lemmas/ParserErrors.lean).
+Property theorems only (helper lemmas: KlogV/Lemmas/ParserErrors.lean, FirstError.lean, Prettify.lean).
 `parseRecord offset lines`: `offset` = number of leading blank lines of the block, `lines` = its
 significant lines; an error's `line` is the index into ALL lines of the block.
 -/
 import KlogV.Lemmas.ParserErrors
+import KlogV.Lemmas.FirstError
+import KlogV.Lemmas.Prettify
+import KlogV.Lemmas.Grammar
+import KlogV.Props.C18
 namespace KlogV.C10
 
 /-- Every reported error names a significant line of the block (so `LineText()` exists and is
@@ -38,6 +42,114 @@ theorem doc_errors_ascending (t : Bytes) (es : List GErr) (h : parseDoc t = .err
     (es.map (·.lineNumber)).Pairwise (· < ·) ∧ ∀ e ∈ es, e.lineText.isSome = true ∧ 1 ≤ e.lineNumber ∧
       e.lineNumber ≤ (splitLines t).length :=
   KlogV.parseDoc_errors_ascending t es h
+
+/-! ### The first error is on the first line at which the text stops conforming -/
+
+/-- line (index into all lines of the block) of the first reported error -/
+abbrev firstErrorLine (o : ParseOut) : Option Nat := KlogV.firstErrorLine o
+
+/-- Everything in front of the line of the first error is, on its own, accepted. -/
+theorem first_error_prefix_accepted (offset k : Nat) (lines : List (List Char))
+    (h : firstErrorLine (parseRecord offset lines) = some (offset + k)) (hk : 0 < k) :
+    ∃ r, parseRecord offset (lines.take k) = .record r :=
+  KlogV.first_error_prefix_accepted offset k lines h hk
+
+/-- Nothing that starts with the lines up to and including the line of the first error is
+accepted, whatever follows: the first error stays on that line.  (Before fix D19 a second open
+range followed by a malformed continuation line was only reported on the continuation line.) -/
+theorem first_error_not_extensible (offset k : Nat) (lines : List (List Char))
+    (h : firstErrorLine (parseRecord offset lines) = some (offset + k)) (rest : List (List Char)) :
+    match parseRecord offset (lines.take (k + 1) ++ rest) with
+    | .record _ => False
+    | .errors es => firstErrorLine (.errors es) = some (offset + k)
+    | .panic => True :=
+  KlogV.first_error_not_extensible offset k lines h rest
+
+/-- The same in terms of the grammar of Specification.md (C01): the lines in front of the first
+error conform, and no conforming block starts with the lines up to and including it — the first
+error is on the first line at which the text stops conforming.  In particular, for a block with
+one faulty line the first error is on that line. -/
+theorem first_error_is_first_nonconforming (offset k : Nat) (lines : List (List Char))
+    (h : firstErrorLine (parseRecord offset lines) = some (offset + k)) :
+    (0 < k → ∃ r, Spec.RecordLines (lines.take k) r) ∧
+    (∀ rest, (∀ l ∈ lines.take (k + 1) ++ rest, ¬ KlogV.HasLongDigitRun l) →
+      ¬ ∃ r, Spec.RecordLines (lines.take (k + 1) ++ rest) r) := by
+  refine ⟨fun hk => ?_, fun rest hn hr => ?_⟩
+  · obtain ⟨r, hr⟩ := first_error_prefix_accepted offset k lines h hk
+    exact ⟨r, KlogV.parseRecord_sound offset _ r hr⟩
+  · obtain ⟨r, hr⟩ := hr
+    have hc := KlogV.parseRecord_complete offset _ r hr hn
+    have := first_error_not_extensible offset k lines h rest
+    rw [hc] at this
+    exact this
+
+/-- Document level: the first error of a text is the first error of its first rejected block;
+all blocks in front of it are accepted. -/
+theorem doc_first_error (t : Bytes) (e : GErr) (es : List GErr) (h : parseDoc t = .errors (e :: es)) :
+    ∃ (pre post : List BlockOut) (bo : BlockOut) (e0 : Err) (es0 : List Err),
+      blockOuts (blocksOf t) = pre ++ bo :: post ∧ (∀ b ∈ pre, ∃ r, b.out = .record r) ∧
+      bo.out = .errors (e0 :: es0) ∧ e.lineNumber = bo.first + e0.line + 1 ∧ e.pos = e0.pos ∧ e.len = e0.len ∧ e.code = e0.code :=
+  KlogV.parseDoc_first_error t e es h
+
+/-! ### The terminal rendering shows these same positions and never fails -/
+
+/-- Rendering the errors of any text never fails (the quoted line exists, `strings.Repeat` gets
+no negative count), under any styler and origin. -/
+theorem pretty_never_fails (t : Bytes) (es : List GErr) (st : Styler) (origin : List Char)
+    (h : parseDoc t = .errors es) : (prettyErrors st origin es).isSome = true :=
+  KlogV.prettyErrors_isSome t es st origin h
+
+/-- The header of an error block, uncoloured. -/
+def header (origin : List Char) (e : GErr) : List Char :=
+  "[SYNTAX ERROR] in line ".toList ++ natDigits e.lineNumber ++ (if origin.isEmpty then [] else " of file ".toList ++ origin)
+
+/-- What is on the screen for one error, line by line (uncoloured): an empty line, the header
+with the 1-based line number, the quoted line (tabs as blanks) indented by four blanks, under it
+exactly `pos` blanks and `len` carets with the same indentation — so the carets start in column
+`pos + 1` of the quoted line, the column `klog json` reports —, then the message lines, each
+indented, and the final line break. -/
+theorem pretty_block_lines (origin : List Char) (e : GErr) (text : Bytes) (h : e.lineText = some text)
+    (hp : 0 ≤ e.pos) (hl : 0 ≤ e.len) (hn : '\n' ∉ decodeGo text) (ho : '\n' ∉ origin) :
+    ∃ (b : List Char) (msg : List (List Char)),
+      prettyError noColour origin e = some b ∧
+      splitOnChar '\n' b = [[], header origin e, INDENT ++ tabsToSpaces (decodeGo text),
+        INDENT ++ List.replicate e.pos.toNat ' ' ++ List.replicate e.len.toNat '^'] ++ msg ++ [[]] ∧
+      msg ≠ [] ∧ (∀ m ∈ msg, INDENT <+: m) :=
+  KlogV.prettyError_lines origin e text h hp hl hn ho
+
+/-- The message is title and details, word by word: re-flowing only replaces blanks by line
+breaks and puts the prefix in front of every line — provided the SECOND word of the paragraph fits
+on a line.
+FALSE without that hypothesis (found by the proof attempt; the Go `Reflower` behaves the same, the
+correspondence check covers it): the decision to break looks at the NEXT word, so a too long second
+word closes the still empty first line, and the first word then finds no prefix for line 2:
+`reflowWords 3 ["> "] ["a", "bcde"] = ["", "a bcde"]` (example below).  For the texts of the parser
+errors the hypothesis holds — proved by evaluation over the regenerated table of all titles and
+details (`errMessage_ok` in Lemmas/Prettify1, used by `pretty_block_lines`), so the rendering of
+syntax errors is not affected; it stops checking if a text with a second word of more than 80 bytes
+is ever introduced. -/
+theorem reflow_words (maxLen : Nat) (pfx para : List Char) (hp : pfx ≠ []) (hn : '\n' ∉ para)
+    (hw : ∀ w, (splitOnChar ' ' para)[1]? = some w → byteLen w ≤ maxLen) :
+    let ls := reflowWords maxLen [pfx] (splitOnChar ' ' para) [] [] []
+    (∀ l ∈ ls, pfx <+: l) ∧ (ls.map (fun l => splitOnChar ' ' (l.drop pfx.length))).flatten = splitOnChar ' ' para :=
+  KlogV.reflowWords_words maxLen pfx para hp hn hw
+
+example : reflowWords 3 ["> ".toList] (splitOnChar ' ' "a bcde".toList) [] [] [] = [[], "a bcde".toList] := by decide
+
+/-- Colour never changes what is shown (C18 for the error rendering): with the sequences of any
+styler removed, the coloured rendering is the uncoloured one. -/
+theorem pretty_strip (st : Styler) (hs : C18.SeqStyler st) (origin : List Char) (es : List GErr) :
+    (prettyErrors st origin es).map strip = (prettyErrors noColour origin es).map strip :=
+  KlogV.prettyErrors_strip st hs origin es
+
+/-- Regenerated on every run: the sequences every theme emits for a colour on a background
+(the `[SYNTAX ERROR]` badge) are complete SGR sequences as well. -/
+theorem theme_bg_seqs_complete : ∀ r ∈ Gen.themeBgTable, KlogV.isSeqsB r.2.2.2.toList = true := by
+  decide +kernel
+
+/-- Non-vacuity: the former D19 witness, first error on the line of the second open range. -/
+example : firstErrorLine (parseRecord 0 ["2020-01-01".toList, "    8:00-?".toList, "    9:00-?".toList, "        \u00a0".toList])
+    = some 2 := by decide
 
 /-- Non-vacuity / the former D3 witness: a malformed continuation line on the last line of the
 file is reported on that line (3), not one past it. -/
